@@ -449,7 +449,7 @@ def sx_isinstance(o, t):
     if _real_isinstance(o, C.SymBool):
         ts = t if _real_isinstance(t, tuple) else (t,)
         return bool in ts or int in ts or SxInt in ts
-    if _real_isinstance(o, (C.SymBitStr, Rope, C.AsciiText, C.HexText, C.UniText)):
+    if _real_isinstance(o, (C.SymBitStr, Rope, C.AsciiText, C.HexText, C.UniText, C.OpaqueText)):
         ts = t if _real_isinstance(t, tuple) else (t,)
         return str in ts
     return _real_isinstance(o, t)
